@@ -26,6 +26,7 @@ type c04conn struct {
 
 type c04flow struct {
 	name   string
+	pre    string // prefix of every processor key (a referenced flow needs keys of its own)
 	nReq   int // request filters p1..pn
 	nGen   int // early-response nodes g1..gm
 	nResp  int // response filters r1..rk
@@ -37,14 +38,14 @@ type c04flow struct {
 func (f *c04flow) def(url string) flowDef {
 	d := flowDef{Name: f.name, URL: url}
 	for i := 1; i <= f.nReq; i++ {
-		d.Procs = append(d.Procs, procDef{Key: fmt.Sprintf("p%d", i), Type: "Filter", Params: [][2]string{{"header", fmt.Sprintf("x-%s-p%d=1", f.name, i)}}})
+		d.Procs = append(d.Procs, procDef{Key: fmt.Sprintf("%sp%d", f.pre, i), Type: "Filter", Params: [][2]string{{"header", fmt.Sprintf("x-%s-%sp%d=1", f.name, f.pre, i)}}})
 	}
 	for i := 1; i <= f.nGen; i++ {
-		k := fmt.Sprintf("g%d", i)
+		k := fmt.Sprintf("%sg%d", f.pre, i)
 		d.Procs = append(d.Procs, procDef{Key: k, Type: "GenerateResponse", Params: [][2]string{{"status", fmt.Sprint(f.status[k])}, {"body", f.name + k}}})
 	}
 	for i := 1; i <= f.nResp; i++ {
-		d.Procs = append(d.Procs, procDef{Key: fmt.Sprintf("r%d", i), Type: "Filter", Params: [][2]string{{"header", fmt.Sprintf("x-%s-r%d=1", f.name, i)}}})
+		d.Procs = append(d.Procs, procDef{Key: fmt.Sprintf("%sr%d", f.pre, i), Type: "Filter", Params: [][2]string{{"header", fmt.Sprintf("x-%s-%sr%d=1", f.name, f.pre, i)}}})
 	}
 	conv := func(cs []c04conn) []connDef {
 		var out []connDef
@@ -81,7 +82,7 @@ func (f *c04flow) def(url string) flowDef {
 // It returns false when an early-response node ended the walk.
 func (f *c04flow) walk(conns []c04conn, node string, out func(node string) string, trace *[]string, early *string) bool {
 	*trace = append(*trace, node)
-	if strings.HasPrefix(node, "g") {
+	if c04isGen(node) {
 		*early = node
 		return false
 	}
@@ -95,6 +96,32 @@ func (f *c04flow) walk(conns []c04conn, node string, out func(node string) strin
 		}
 	}
 	return true
+}
+
+// c04isGen: an early-response node ("g1", or "lg1" in a referenced flow).
+func c04isGen(node string) bool {
+	return strings.HasPrefix(node, "g") || strings.HasPrefix(node, "lg")
+}
+
+// prefixed returns the flow with every processor key prefixed.
+func (f *c04flow) prefixed(pre string) *c04flow {
+	g := &c04flow{name: f.name, pre: pre, nReq: f.nReq, nGen: f.nGen, nResp: f.nResp, status: map[string]int{}}
+	n := func(x string) string {
+		if x == "" {
+			return ""
+		}
+		return pre + x
+	}
+	for k, v := range f.status {
+		g.status[n(k)] = v
+	}
+	for _, c := range f.req {
+		g.req = append(g.req, c04conn{from: n(c.from), cond: c.cond, to: n(c.to), fromFlow: c.fromFlow, toFlow: c.toFlow})
+	}
+	for _, c := range f.resp {
+		g.resp = append(g.resp, c04conn{from: n(c.from), cond: c.cond, to: n(c.to), fromFlow: c.fromFlow, toFlow: c.toFlow})
+	}
+	return g
 }
 
 func rootOf(conns []c04conn) string {
@@ -229,6 +256,15 @@ func genC04Flow(tp *kernel.Tape, name string) *c04flow {
 func runC04(s *kernel.Sim) {
 	tp := s.Tape
 	nFlows := 1 + tp.Weighted([]int{3, 1})
+	// reference shape (a quarter of the runs): one flow on the transaction's URL whose
+	// request path begins with another flow ("from flow lib at end") and whose
+	// response path hands over to it ("to flow lib at start"); lib sits on a URL of
+	// its own and is judged through the graph of the flow that refers to it
+	refShape := tp.Chance(1, 4)
+	if refShape {
+		nFlows = 1
+	}
+	s.Knobs["flow_reference"] = refShape
 	var flows []*c04flow
 	files := map[string]string{}
 	var desc []string
@@ -238,6 +274,88 @@ func runC04(s *kernel.Sim) {
 		y := f.def("a.com/g").YAML()
 		files["flows/"+f.name+".yaml"] = y
 		desc = append(desc, fmt.Sprintf("%s req=%v resp=%v", f.name, f.req, f.resp))
+	}
+	model := flows    // what the reference interpreter walks
+	steered := flows  // whose filters the steering headers address
+	if refShape {
+		main := flows[0]
+		g := genC04Flow(tp, "lib")
+		// the referenced response direction needs an entry point
+		if g.nResp == 0 {
+			g.nResp = 1
+			g.resp = append(g.resp, c04conn{from: "r1", cond: "hit", to: ""})
+		}
+		var resp []c04conn
+		for _, c := range g.resp {
+			if !(c.from == "" && c.fromFlow == "") {
+				resp = append(resp, c)
+			}
+		}
+		g.resp = append([]c04conn{{from: "", to: "r1"}}, resp...)
+		lib := g.prefixed("l")
+		// main: the request entry is the end of lib; response ends hand over to lib
+		entry := main.req[0].to
+		main.req[0] = c04conn{fromFlow: "lib@end", to: entry}
+		if rootOf(main.resp) == "" {
+			if main.nResp == 0 {
+				main.nResp = 1
+				main.resp = append(main.resp, c04conn{from: "r1", cond: "miss", to: ""})
+			}
+			var keep []c04conn
+			for _, c := range main.resp {
+				if c.from != "" {
+					keep = append(keep, c)
+				}
+			}
+			main.resp = append([]c04conn{{from: "", to: "r1"}}, keep...)
+		}
+		handed := 0
+		for i, c := range main.resp {
+			if c.from != "" && c.to == "" && tp.Chance(1, 2) {
+				main.resp[i].toFlow = "lib@start"
+				handed++
+			}
+		}
+		if handed == 0 {
+			main.resp = append(main.resp, c04conn{from: "r1", cond: "hit", toFlow: "lib@start"})
+		}
+		files["flows/f0.yaml"] = main.def("a.com/g").YAML()
+		files["flows/lib.yaml"] = lib.def("a.com/lib").YAML()
+		desc = []string{fmt.Sprintf("f0 req=%v resp=%v", main.req, main.resp), fmt.Sprintf("lib req=%v resp=%v", lib.req, lib.resp)}
+		// the composite graph: lib's request path, its ends continue at main's entry;
+		// main's response path, handed-over ends continue at lib's response entry
+		comp := &c04flow{name: "f0", status: map[string]int{}}
+		for k, v := range main.status {
+			comp.status[k] = v
+		}
+		for k, v := range lib.status {
+			comp.status[k] = v
+		}
+		comp.req = append(comp.req, c04conn{from: "", to: rootOf(lib.req)})
+		for _, c := range lib.req {
+			if c.from == "" {
+				continue
+			}
+			if c.to == "" {
+				c.to = entry
+			}
+			comp.req = append(comp.req, c)
+		}
+		comp.req = append(comp.req, main.req[1:]...)
+		libRespRoot := rootOf(lib.resp)
+		for _, c := range main.resp {
+			if c.toFlow != "" {
+				c.to, c.toFlow = libRespRoot, ""
+			}
+			comp.resp = append(comp.resp, c)
+		}
+		for _, c := range lib.resp {
+			if c.from != "" {
+				comp.resp = append(comp.resp, c)
+			}
+		}
+		model = []*c04flow{comp}
+		steered = []*c04flow{main, lib}
 	}
 	withQuota := tp.Chance(1, 3)
 	if withQuota {
@@ -349,17 +467,19 @@ func runC04(s *kernel.Sim) {
 		hdr := map[string]string{}
 		rhdr := map[string]string{}
 		hit := map[string]bool{}
-		for _, f := range flows {
+		for _, f := range steered {
 			for i := 1; i <= f.nReq; i++ {
 				if tp.Chance(1, 2) {
-					hdr[fmt.Sprintf("x-%s-p%d", f.name, i)] = "1"
-					hit[f.name+"/p"+fmt.Sprint(i)] = true
+					hdr[fmt.Sprintf("x-%s-%sp%d", f.name, f.pre, i)] = "1"
+					hit[f.name+"/"+f.pre+"p"+fmt.Sprint(i)] = true
+					hit["f0/"+f.pre+"p"+fmt.Sprint(i)] = hit["f0/"+f.pre+"p"+fmt.Sprint(i)] || refShape
 				}
 			}
 			for i := 1; i <= f.nResp; i++ {
 				if tp.Chance(1, 2) {
-					rhdr[fmt.Sprintf("x-%s-r%d", f.name, i)] = "1"
-					hit[f.name+"/r"+fmt.Sprint(i)] = true
+					rhdr[fmt.Sprintf("x-%s-%sr%d", f.name, f.pre, i)] = "1"
+					hit[f.name+"/"+f.pre+"r"+fmt.Sprint(i)] = true
+					hit["f0/"+f.pre+"r"+fmt.Sprint(i)] = hit["f0/"+f.pre+"r"+fmt.Sprint(i)] || refShape
 				}
 			}
 		}
@@ -377,7 +497,7 @@ func runC04(s *kernel.Sim) {
 		earlyFlow, earlyNode := "", ""
 		for _, name := range userOrder {
 			var f *c04flow
-			for _, x := range flows {
+			for _, x := range model {
 				if x.name == name {
 					f = x
 				}
@@ -408,7 +528,7 @@ func runC04(s *kernel.Sim) {
 		if earlyFlow != "" {
 			// the response path runs inside the same call: every user flow's response direction,
 			// the answering flow from its early-response node's response connection
-			for _, f := range flows {
+			for _, f := range model {
 				e := want[f.name]
 				if e == nil {
 					e = &exp{}
@@ -427,7 +547,7 @@ func runC04(s *kernel.Sim) {
 			}
 		}
 		compare := func(tag string, txn string) {
-			for _, f := range flows {
+			for _, f := range model {
 				var gr, gs []string
 				for _, e := range got[txn] {
 					if e.flow != f.name {
@@ -455,6 +575,14 @@ func runC04(s *kernel.Sim) {
 			}
 		}
 		compare("request", id)
+		if refShape {
+			for _, e := range append(append([]ev{}, got[id]...), got[id+"r"]...) {
+				if e.flow == "lib" {
+					s.Violate("R1", "referenced-flow-ran-on-its-own", "transaction %s does not match the filter of flow lib (a.com/lib), yet %s ran as part of flow lib", id, e.proc)
+					break
+				}
+			}
+		}
 		sysReq := sysOrder(id)
 		s.Rule("R3")
 		if firstUser, lastSysStart := flowPositions(id); firstUser >= 0 && lastSysStart > firstUser {
@@ -468,7 +596,7 @@ func runC04(s *kernel.Sim) {
 			s.Violate("R2", "early-response-presence", "transaction %s: early response returned=%v, the graph reaches an early-response node=%v (%s/%s)", id, out.Early, earlyFlow != "", earlyFlow, earlyNode)
 		} else if out.Early {
 			var f *c04flow
-			for _, x := range flows {
+			for _, x := range model {
 				if x.name == earlyFlow {
 					f = x
 				}
@@ -489,7 +617,7 @@ func runC04(s *kernel.Sim) {
 			s.Violate("R1", "execute-error", "ExecuteFlow(response) error: %v", r.Err)
 			return
 		}
-		for _, f := range flows {
+		for _, f := range model {
 			e := &exp{}
 			want[f.name] = e
 			var dummy string
